@@ -403,6 +403,7 @@ const (
 	stNotReading
 	stMidStreamNotReading
 	stSlowHandlerWindowFull
+	stAcceptedWhileStopping
 	stKinds
 )
 
@@ -460,6 +461,13 @@ func H_C11_stop() {
 		vConnSet(nc, "closeErr", vBool("closeFails"))
 	}
 	switch state {
+	case stAcceptedWhileStopping:
+		// Stop arrives while Accept is in progress and the kernel had just completed a
+		// client's connection: Accept still returns it
+		vEnvSet("acceptRace", true)
+		vEnvAcceptCall(func() { v.goStop() })
+		vConnFeedBlock(nc)
+		vEnvAccept(nc)
 	case stMidStreamNotReading:
 		// a pipelining client that never reads its responses; Stop arrives between two
 		// of its requests (the read loop takes its shutdown branch), handlers still
@@ -473,7 +481,7 @@ func H_C11_stop() {
 	}
 	v.goRun(runOpts...)
 	vQuiesce()
-	if state != stMidStreamNotReading && state != stSlowHandlerWindowFull {
+	if state != stMidStreamNotReading && state != stSlowHandlerWindowFull && state != stAcceptedWhileStopping {
 		v.goStop()
 	}
 	second := vBool("secondStop")
@@ -585,14 +593,29 @@ func H_C12_orders() {
 func H_C17_ready() {
 	vSchedFork(1)
 	v := vNewSrv()
-	addrs := []string{"127.0.0.1:10389", "[::1]:10389", "localhost:10389", ":10389", "::1:10389", "127.0.0.1", "[::1]", "[::1:10389", "300.1.1.1:389", "127.0.0.1:"}
+	addrs := []string{"127.0.0.1:10389", "[::1]:10389", "localhost:10389", ":10389", "::1:10389", "127.0.0.1", "[::1]", "[::1:10389", "300.1.1.1:389", "127.0.0.1:", "127.0.0.1:65536", "127.0.0.1:-1"}
+	// the address the server must be listening on when Ready() is true ("" = Run must fail:
+	// no port, malformed, or a port outside 0..65535)
+	wantListen := []string{"127.0.0.1:10389", "[::1]:10389", "localhost:10389", ":10389", "[::1]:10389", "", "", "", "", "", "", ""}
 	ai := vLen("addr", len(addrs)-1)
 	vEnvSet("listenErr", vBool("listenFails"))
-	vEnvSet("resolves", vBool("hostResolves"))
+	resolves := vBool("hostResolves")
+	vEnvSet("resolves", resolves)
+	if resolves {
+		wantListen[8] = addrs[8] // with a resolver that answers for it, "300.1.1.1" is a host name
+	}
 	nc := vNetConn("c1")
 	vConnFeed(nc, vWire(refEnvelope(1, refDeleteOp(), nil)))
 	served := false
-	vAssume(v.mux.Delete(func(w *ResponseWriter, r *Request) { served = true }) == nil)
+	tlsWanted := false
+	vAssume(v.mux.Delete(func(w *ResponseWriter, r *Request) {
+		served = true
+		if tlsWanted {
+			vAssertE(vTLSConfigOf(r.conn.netConn) != nil, "with a TLS configuration a handler runs only on a TLS connection")
+		}
+	}) == nil)
+	// the address may be taken for a moment when Run starts (only the first attempt to listen fails)
+	vEnvSet("listenBusyOnce", vBool("addressBrieflyInUse"))
 	polled := vLen("polls", 2)
 	for i := 0; i < polled; i++ {
 		go func() {
@@ -607,6 +630,7 @@ func H_C17_ready() {
 	var runOpts []Option
 	withTLS := vBool("withTLS")
 	if withTLS {
+		tlsWanted = true
 		runOpts = append(runOpts, WithTLSConfig(vTLSConfig()))
 	}
 	go func() {
@@ -624,6 +648,7 @@ func H_C17_ready() {
 	} else {
 		vAssertE(v.s.Ready(), "Ready is true once Run is accepting")
 		vAssertE(vEnvListenerOpen() == 1, "listening")
+		vAssertE(wantListen[ai] != "" && vEnvListenAddr() == wantListen[ai], "Ready() is true only while the server listens on the address Run was given")
 		if vBool("acceptErrorFirst") {
 			vEnvAcceptTempErr() // a connection attempt that hits descriptor exhaustion; the next one must be served
 		}
